@@ -25,7 +25,7 @@ func c10Base(t *decl.Type, pos int) string {
 
 var c10Slices = []*decl.Type{nil, decl.TStrings, decl.TInts}
 
-var c10Units = [][]string{{"w"}, {"7"}, {"-3"}, {"-v"}, {"-s", "val"}, {"--"}, {"-x"}, {"cmd"}, {"--str=q"}, {"10"}, {"k:1"}, {`"7"`}}
+var c10Units = [][]string{{"w"}, {"7"}, {"-3"}, {"-v"}, {"-s", "val"}, {"--"}, {"-x"}, {"cmd"}, {"-2"}, {"10"}, {"k:1"}, {`"7"`}}
 
 func c10Decl(types []int, slice int, owner int, popt int) *decl.Decl {
 	pdd := popt&1 != 0
@@ -42,6 +42,7 @@ func c10Decl(types []int, slice int, owner int, popt int) *decl.Decl {
 	top := &decl.Cmd{Name: "app", Opts: []*decl.Opt{
 		{Field: "Verbose", Short: "v", Long: "verbose", Type: decl.TBools},
 		{Field: "Str", Short: "s", Long: "str", Type: decl.TString},
+		{Field: "Two", Short: "2", Long: "two", Type: decl.TBool}, // a digit as short name: -2 is this flag, never a negative number for a pending positional
 	}}
 	cmd := &decl.Cmd{Field: "Cmd", Name: "cmd"}
 	top.Cmds = []*decl.Cmd{cmd}
@@ -85,6 +86,10 @@ func init() {
 	cache := map[string]*decl.Decl{}
 	body := func(c *explore.Ctx) {
 		li := c.Choose(len(layouts))
+		if li == 0 && c.Bool() {
+			c10TwoStructs(c)
+			return
+		}
 		si := c.Choose(len(c10Slices))
 		owner := c.Choose(3)
 		popt := c.Choose(4) // bit 0 PassDoubleDash, bit 1 PassAfterNonOption
@@ -229,10 +234,95 @@ func init() {
 		ShardDepth: 5,
 		Body:       body,
 		Rule: "positional layouts: every sequence of 0..3 scalar fields over {string, int, Unmarshaler, map[string]int} (an int field at an odd position carries base:\"8\") x trailing slice {none, []string, []int} x owner {parser, command, both (the same layout on each)} x {None, PassDoubleDash, PassAfterNonOption, both} x {tags, API} " +
-			"x every sequence of <= 4 units (<= 3 for three-field layouts, PassAfterNonOption and both-owner declarations; thorough: one more everywhere, 6 for parser-owned layouts built through the API with PassDoubleDash) over {w, 7, -3, 10, k:1, a quoted 7 (with its quotes: a positional is taken verbatim), -v, -s val, --, -x, cmd, --str=q}; oracle = CLM positional queue (field values after conversion, overflow into remaining arguments); after every accepted vector the public Args() list must still be the declared one and, for layouts without a slice, a second parse of the same vector on the same parser must bind the same fields",
+			"x every sequence of <= 4 units (<= 3 for three-field layouts, PassAfterNonOption and both-owner declarations; thorough: one more everywhere, 6 for parser-owned layouts built through the API with PassDoubleDash) over {w, 7, -3, 10, k:1, a quoted 7 (with its quotes: a positional is taken verbatim), -v, -s val, -2 (a declared flag with a digit as short name), --, -x, cmd}; oracle = CLM positional queue (field values after conversion, overflow into remaining arguments); after every accepted vector the public Args() list must still be the declared one and, for layouts without a slice, a second parse of the same vector on the same parser must bind the same fields",
 		Assumptions:  []string{"conversion of the alphabet's tokens is taken from the conversion model (checked against the library by C11)"},
 		RequiredHits: []string{"compared", "three-or-more-bound", "after-terminator", "conversion-fault", "second-parse"},
 		Bound:        [2]string{"all unit sequences of length <= 4", "all unit sequences of length <= 5 (<= 6 on one declaration family)"},
 		BudgetS:      [2]int{170, 1500},
 	})
+}
+
+// c10TwoStructs: two positional-args structs on one parser (an embedded shared one and the program's own): their fields
+// form one queue in declaration order.
+func c10TwoStructs(c *explore.Ctx) {
+	type shared struct {
+		X string
+		Y int
+	}
+	var opts struct {
+		Verbose []bool `short:"v"`
+		First   shared `positional-args:"yes"`
+		Second  struct {
+			Z    string
+			Rest []string
+		} `positional-args:"yes"`
+	}
+	toks := []string{"a", "5", "b", "-v", "c"}
+	n := c.Choose(6)
+	var argv []string
+	for i := 0; i < n; i++ {
+		argv = append(argv, toks[c.Choose(len(toks))])
+	}
+	c.Describe(func() interface{} {
+		return map[string]interface{}{"declaration": "two positional-args structs: {X string; Y int} and {Z string; Rest []string}", "argv": argv}
+	})
+	p := flags.NewParser(&opts, flags.None)
+	var rest []string
+	var err error
+	func() {
+		defer func() {
+			if r := recover(); r != nil {
+				c.Fail("panic|"+explore.PanicSite(), fmt.Sprint(r))
+			}
+		}()
+		rest, err = p.ParseArgs(argv)
+	}()
+	if c.Failed() {
+		return
+	}
+	// reference queue
+	var plain []string
+	for _, a := range argv {
+		if a != "-v" {
+			plain = append(plain, a)
+		}
+	}
+	want := [3]string{}
+	wantY, wantErr := 0, false
+	var wantRest []string
+	for i, t := range plain {
+		switch i {
+		case 0:
+			want[0] = t
+		case 1:
+			if t == "5" {
+				wantY = 5
+			} else {
+				wantErr = true
+			}
+		case 2:
+			want[2] = t
+		default:
+			wantRest = append(wantRest, t)
+		}
+		if wantErr {
+			break
+		}
+	}
+	c.Outcome("two-structs", fmt.Sprint(err != nil), opts.First.X, fmt.Sprint(opts.First.Y), opts.Second.Z, strings.Join(opts.Second.Rest, ","))
+	c.Hit("two-positional-structs")
+	if wantErr {
+		if err == nil {
+			c.Fail("unconvertible-token-accepted", map[string]interface{}{"argv": argv})
+		}
+		return
+	}
+	if err != nil {
+		c.Fail("valid-vector-rejected|"+errType(err), fmt.Sprint(err))
+		return
+	}
+	got := [3]string{opts.First.X, "", opts.Second.Z}
+	if got != want || opts.First.Y != wantY || !sameStrings(opts.Second.Rest, wantRest) || len(rest) != 0 {
+		c.Fail("positional|two-structs", map[string]interface{}{"want": fmt.Sprint(want[0], wantY, want[2], wantRest), "got": fmt.Sprint(opts.First.X, opts.First.Y, opts.Second.Z, opts.Second.Rest), "rest": rest})
+	}
 }
